@@ -103,6 +103,9 @@ func (mt *multiSwarm) Tell(ctx context.Context, dst Addr, data p2p.IOVec) error 
 	if !ok {
 		return ErrTransportNotExist
 	}
+	if p2p.VecSize(data) > mt.MTU() {
+		return p2p.ErrMTUExceeded
+	}
 	return t.Tell(ctx, dst.Addr, data)
 }
 
